@@ -25,6 +25,7 @@ import (
 	"strings"
 
 	"github.com/danos/mgmterror"
+	"github.com/danos/utils/pathutil"
 	"github.com/sdcio/yang-parser/data/datanode"
 	"github.com/sdcio/yang-parser/schema"
 )
@@ -140,6 +141,15 @@ func convertToDataNode(path []string, name string, node unserialized, sn schema.
 			return nil, err
 		}
 		if _, ok := sn.(schema.Leaf); ok {
+			// A leaf holds exactly one value
+			if len(values) == 0 {
+				return nil, schema.NewMissingValueError(path)
+			}
+			if len(values) > 1 {
+				e := mgmterror.NewTooManyElementsError(node.name())
+				e.Path = pathutil.Pathstr(path)
+				return nil, e
+			}
 			if _, isEmpty := sn.Type().(schema.Empty); isEmpty {
 				if len(values) > 0 && (len(values) != 1 || values[0] != "") {
 					return nil, schema.NewEmptyLeafValueError(node.name(), path)
